@@ -1105,7 +1105,24 @@ func (c *Conn) handleBdat(arg string) {
 		// the whole chunk.
 		io.Copy(ioutil.Discard, chunk)
 
-		c.writeResponse(dataErrorToStatus(err))
+		delivered := false
+		if last && c.server.LMTP {
+			// The result is sent before the pipe is closed: if the backend
+			// has given up, its result is there and the statuses are final.
+			select {
+			case derr := <-c.dataResult:
+				delivered = true
+				c.bdatStatus.fillRemaining(derr)
+				for i, rcpt := range c.recipients {
+					code, enchCode, msg := dataErrorToStatus(<-c.bdatStatus.status[i])
+					c.writeResponse(code, enchCode, "<"+rcpt+"> "+msg)
+				}
+			default:
+			}
+		}
+		if !delivered {
+			c.writeResponse(dataErrorToStatus(err))
+		}
 
 		// chunk.N > 0: the rest of the chunk could not be skipped (read
 		// timeout, connection error); if it still arrives it must not be
